@@ -68,6 +68,11 @@ def gen_csg(rng, cid, nprims, arith_p=0.3):
     return p
 
 
+def f_sq(p, a, b):
+    """emits a*a + b*b and returns the command text of the sum"""
+    return f"bin OP_ADD {p.emit(f'un OP_SQUARE {a}', 'tree')} {p.emit(f'un OP_SQUARE {b}', 'tree')}"
+
+
 def nested_boxes(rng, depth):
     lo = [-2.0, -2.0, -2.0]; hi = [2.0, 2.0, 2.0]
     out = []
@@ -114,6 +119,51 @@ def run(replay=None):
             p.ppts.append((pt, p.ncmd + 1))
             p.emit(f"pushpt {p.root} " + " ".join(f2h(v) for v in pt))
         progs.append(p)
+    # free variables under min / max: the interval evaluator keeps its own copy of every variable's value, so after
+    # Evaluator::updateVars (or the C API's libfive_evaluator_update_vars) a push must specialise for the NEW value:
+    # slabs max(-z, z - v), max(x - v, ...) with v changed between pushes; the reference is a freshly built evaluator
+    vprogs = []
+    for k in range(40 if quick else 800):
+        p = exprlib.Prog(f"v{k}")
+        ax = [p.emit("x", "axis"), p.emit("y", "axis"), p.emit("z", "axis")]
+        nv = ck.rng.randint(1, 3)
+        vs = [p.emit("var", "var") for _ in range(nv)]
+        terms = []
+        for v in vs:
+            a = ax[ck.rng.randrange(3)]
+            lo = p.emit(f"un OP_NEG {a}", "tree")
+            hi = p.emit(f"bin OP_SUB {a} {v}", "tree")
+            terms.append(p.emit(f"bin OP_MAX {lo} {hi}", "tree"))          # the slab 0 < a < v
+        sq = p.emit(f_sq(p, ax[0], ax[1]), "tree")
+        cyl = p.emit(f"bin OP_SUB {p.emit(f'un OP_SQRT {sq}', 'tree')} {p.emit('const 3f800000', 'const')}", "tree")
+        root = cyl
+        for t in terms:
+            root = p.emit(f"bin {ck.rng.choice(['OP_MAX', 'OP_MAX', 'OP_MIN'])} {root} {t}", "tree")
+        hist = []
+        for _ in range(ck.rng.randint(3, 8)):
+            kk = ck.rng.randrange(nv)
+            hist.append(f"{ck.rng.choice(['SV', 'UV 1'])} {kk} {f2h(ck.rng.choice([0.5, 1.0, 2.0, 3.0, ck.rng.uniform(0.2, 3.0)]))}")
+            for _ in range(ck.rng.randint(1, 2)):
+                c = [ck.rng.uniform(-0.5, 2.5) for _ in range(3)]
+                h = ck.rng.choice([0.1, 0.25, 0.5])
+                lo_ = [x - h for x in c]; hi_ = [x + h for x in c]
+                hist.append("P " + " ".join(f2h(x) for x in lo_ + hi_ + c))
+        init = " ".join(f2h(ck.rng.choice([0.5, 1.0, 2.0])) for _ in range(nv))
+        p.q = p.ncmd + 1
+        p.emit(f"history {root} {nv} {init} " + " | ".join(hist))
+        vprogs.append(p)
+    vout, _ = common.run_cases_sharded(os.path.join(common.BUILD, "cxx", "bin", "expr"), [p.text() for p in vprogs], timeout=300)
+    VH = parse_out(vout)
+    nvar_pushes = 0
+    for p in vprogs:
+        hi_l = [l for l in VH.get((p.cid, p.q), []) if l.startswith("HI ")]
+        if not hi_l:
+            continue
+        f = hi_l[0].split()
+        nvar_pushes += int(f[1].split("=")[1])
+        if int(f[2].split("=")[1]):
+            ck.violation("value:vars", "after a variable update a specialised tape answers differently from a tape specialised by an "
+                         "evaluator built with the new value", {"program": p.text(), "detail": hi_l[0]})
     exe_h = os.path.join(common.BUILD, "cxx", "bin", "expr")
     exe_m = os.path.join(common.BUILD, "ocaml", "driver")
     hout, hskip = common.run_cases_sharded(exe_h, [p.text() for p in progs])
@@ -239,6 +289,7 @@ def run(replay=None):
     ck.coverage.update(stats)
     ck.coverage["evaluations"] = stats["pushes"] + stats["oracle_points"]
     ck.coverage["distinct_nontrivial"] = len(nontrivial)
+    ck.coverage["variable_pushes"] = nvar_pushes
     ck.coverage["rule"] = ("CSG programs (min/max over spheres, boxes, half-spaces, cylinders) and random programs; nested "
                            "shrinking boxes of depth 2..5 (10 thorough) plus 3 point pushes; non-trivial = at least one clause "
                            "dropped and at least one min/max kept both sides somewhere in the chain (one count per program)")
